@@ -166,6 +166,11 @@ where
     if plan.check_each_step {
         let phase = if si > 0 { restart_phase(&plan, si) } else { "step" };
         check_all_queries::<K>(ctx, st.as_ref().unwrap(), phase, 1_000_000 + si as u32).await;
+        if matches!(phase, "restart" | "quiescent") && si > 0 && plan.sessions[si - 1].end == SessionEnd::Close {
+            crate::queries::restart_changed_answers(ctx, &format!("reopen at the start of session {}", si));
+        } else {
+            ctx.mismatch_before_close.borrow_mut().take();
+        }
         if crate::oracle::settle(ctx).await {
             crate::oracle::check_accounting(ctx, st.as_ref().unwrap(), phase).await;
         }
@@ -557,6 +562,11 @@ where
     if plan.check_each_step || plan.profile.contains("deepindex") {
         let nviol = ctx.violations.borrow().iter().filter(|v| v.property.contains("C03")).count();
         check_all_queries::<K>(ctx, &s2, base_phase(&plan, si).unwrap_or("restart"), uid).await;
+        if matches!(base_phase(&plan, si), None | Some("quiescent")) {
+            crate::queries::restart_changed_answers(ctx, &format!("Restart(lazy={}, damage={:?}) uid={}", lazy, damage, uid));
+        } else {
+            ctx.mismatch_before_close.borrow_mut().take();
+        }
         if accounting && crate::oracle::settle(ctx).await {
             crate::oracle::check_accounting(ctx, &s2, base_phase(&plan, si).unwrap_or("restart")).await;
         }
